@@ -136,6 +136,16 @@ pub fn next_solution_bip<'a>(sn: Rc<RefCell<SolutionNode<'a>>>,
             if let Some(terms) = &bip.terms {
                 let left  = &terms[0];
                 let right = &terms[1];
+                #[cfg(feature = "verif-hooks")]
+                {
+                    let result = left.unify(right, &sn_ref.ss);
+                    crate::verif_hooks::emit(&crate::verif_hooks::HookEvent::BipUnify {
+                        left, right,
+                        ss_in: &sn_ref.ss, ss_out: result.as_deref(),
+                    });
+                    return result;
+                }
+                #[cfg(not(feature = "verif-hooks"))]
                 return left.unify(right, &sn_ref.ss);
             }
             return None;
